@@ -357,9 +357,11 @@ def scripts(ctx):
     out = []
     status_kinds = ["form", "leave", "up"]
     for kind in status_kinds:
-        alpha = ["R=ok", "R=refused", "R=notjoined", "R=joined", "E=up", "E=down", "E=other", "T", "C=1", "Z=up", "Z=down"]
+        alpha0 = ["R=ok", "R=refused", "R=notjoined", "R=joined", "E=up", "E=down", "E=other", "T", "C=1"]
         L = ctx.n(3, 5)
         for n in range(1, L + 1):
+            # (events of the second EZSP object: in every word up to length 3; the longer words of the thorough tier go without)
+            alpha = alpha0 + (["Z=up", "Z=down"] if n <= 3 else [])
             for w in itertools.product(alpha, repeat=n):
                 out.append([f"B=1={kind}"] + list(w))
     alpha = ["R=ok", "R=refused", "I", "J", "X=1", "X=0", "C=1", "E=up"]
